@@ -350,5 +350,72 @@ theorem triOutlineGuard_of_inside (t : Tri) (style : TriStyle) (hal : style.stro
             · exact outline_covered_of_joinIn _ J1 J2
             · exact outline_covered_of_joinIn _ J2 J0
 
+/-- The right edge is an outline line of every segment. -/
+theorem right_edge_mem_outline (s : ThickSegment) : s.edges.1 ∈ s.outline := by
+  cases h : s.isSkeleton with
+  | true => rw [outline_skeleton s h]; exact List.mem_cons_self
+  | false => rw [outline_eq s h]; simp
+
+/-- `TriInsideGuard` is the weaker guard: it holds wherever `TriOutlineGuard` does (the inner corners are
+end points of the right edges, which are outline lines). -/
+theorem triInsideGuard_of_outline (t : Tri) (style : TriStyle) (hal : style.strokeAlignment = .inside)
+    (h : TriOutlineGuard t style) : TriInsideGuard t style.strokeWidth := by
+  have hbb : triStyledBoundingBox t style = some t.boundingBox := by
+    unfold triStyledBoundingBox
+    have : style.strokeWidth < 2 ∨ style.strokeAlignment = .inside := Or.inr hal
+    simp only [this, ↓reduceIte]
+  have hoff : style.strokeAlignment.toOffset = .right := by rw [hal]; rfl
+  unfold TriOutlineGuard at h
+  rw [hbb, hoff] at h
+  unfold TriInsideGuard
+  cases hs : closedSegments3 t.sortedClockwise style.strokeWidth .right with
+  | none => trivial
+  | some segs =>
+    rw [hs] at h
+    dsimp only at h ⊢
+    obtain ⟨_, hout, _⟩ := h
+    unfold closedSegments3 at hs
+    cases h0 : LineJoin.fromPoints t.sortedClockwise.v3 t.sortedClockwise.v1 t.sortedClockwise.v2
+        style.strokeWidth .right with
+    | none => rw [h0] at hs; cases hs
+    | some j0 =>
+      cases h1 : LineJoin.fromPoints t.sortedClockwise.v1 t.sortedClockwise.v2 t.sortedClockwise.v3
+          style.strokeWidth .right with
+      | none => rw [h0, h1] at hs; cases hs
+      | some j1 =>
+        cases h2 : LineJoin.fromPoints t.sortedClockwise.v2 t.sortedClockwise.v3 t.sortedClockwise.v1
+            style.strokeWidth .right with
+        | none => rw [h0, h1, h2] at hs; cases hs
+        | some j2 =>
+          rw [h0, h1, h2] at hs
+          simp only [Option.bind_eq_bind, Option.bind_some, pure, Option.some.injEq] at hs
+          subst hs
+          have e0 := hout ⟨j0, j1⟩ (by simp) _ (right_edge_mem_outline _)
+          have e1 := hout ⟨j1, j2⟩ (by simp) _ (right_edge_mem_outline _)
+          have e2 := hout ⟨j2, j0⟩ (by simp) _ (right_edge_mem_outline _)
+          unfold ThickSegment.edges at e0 e1 e2
+          dsimp only at e0 e1 e2
+          intro s hs
+          simp only [List.mem_cons, List.not_mem_nil, or_false] at hs
+          rcases hs with rfl | rfl | rfl
+          · exact ⟨e2.2, e0.1⟩
+          · exact ⟨e0.2, e1.1⟩
+          · exact ⟨e1.2, e2.1⟩
+
+/-- For an Outside stroke with `i32` vertices the two guards are the same. -/
+theorem triStrokeGuard_outside_iff (t : Tri) (style : TriStyle) (hal : style.strokeAlignment = .outside)
+    (hi : TriI32 t) : TriStrokeGuard t style ↔ TriOutsideStrokeGuard t style := by
+  refine ⟨?_, triStrokeGuard_of_outside t style hal hi⟩
+  unfold TriStrokeGuard TriOutsideStrokeGuard
+  generalize closedSegments3 t.sortedClockwise style.strokeWidth style.strokeAlignment.toOffset = o
+  rcases o with _ | (_ | ⟨a, _ | ⟨b, _ | ⟨c, _ | ⟨d, r⟩⟩⟩⟩)
+  · exact id
+  · exact id
+  · exact id
+  · exact id
+  · rintro ⟨g0, g1, g2, g3, _⟩
+    exact ⟨g0, g1, g2, g3⟩
+  · exact id
+
 end Joins
 end EG
